@@ -1,15 +1,17 @@
 #!/bin/bash
-# usage: try_mutant.sh <patch.diff> <prop> [prop...]   -- applies the patch to /repo, runs the quick checks, undoes it
+# usage: try_mutant.sh <abs patch.diff> <prop> [prop...]
+# applies the patch to a scratch worktree of /repo's HEAD (never to /repo itself), runs the quick checks
+# against it (VERIF_REPO), removes the worktree; the evidence files rewritten by those runs are restored
 P=$1; shift
-cd /repo || exit 2
-git apply "$P" || { echo "patch does not apply"; exit 2; }
+W=/tmp/mutrepo.$$
+git -C /repo worktree add --detach $W HEAD >/dev/null 2>&1 || { echo "cannot create worktree"; exit 2; }
+git -C $W apply "$P" || { echo "patch does not apply"; git -C /repo worktree remove --force $W; exit 2; }
 for prop in "$@"; do
   cd /verif
-  /usr/bin/time -f "$prop %es" ./check $prop ${TIER:-quick} > /tmp/mutant.$prop.out 2>&1
+  VERIF_REPO=$W /usr/bin/time -f "$prop %es" ./check $prop ${TIER:-quick} > /tmp/mutant.$prop.out 2>&1
   echo "$prop exit=$? $(grep -c '^VIOLATION' /tmp/mutant.$prop.out) violation line(s)"
   grep -A3 '^VIOLATION' /tmp/mutant.$prop.out | cut -c1-260 | head -12
   tail -1 /tmp/mutant.$prop.out | cut -c1-200
 done
-git -C /repo checkout -- . ; git -C /repo status --short | head -3
-# evidence files are rewritten by the runs above: restore the committed ones
+git -C /repo worktree remove --force $W; git -C /repo worktree prune
 git -C /verif checkout -- evidence 2>/dev/null
